@@ -117,7 +117,10 @@ def compare_with_summaries(ctx, g, observed):
         if cls.startswith("_"):
             continue
         if all(o["value"] for o in by_cls.get(cls, [])):
-            ctx.broken.append(f"translator missed: {cls} is not reproducible on the real code ({sorted(kinds)}) but every draw site of its summaries uses its own generator")
+            msg = f"translator missed: {cls} is not reproducible on the real code ({sorted(kinds)}) but every draw site of its summaries uses its own generator"
+            # with a flipped obligation elsewhere the nondeterminism may come in through an inner strategy
+            # or a model argument of the flipped class: the tie already broke at the root cause
+            (ctx.notes.setdefault("nondeterminism_through_other_objects", []) if g["flips"] else ctx.broken).append(msg)
     for o in g["obligations"]:
         if o["value"] or o["cls"] not in run_classes:
             continue
